@@ -21,6 +21,7 @@ type Tables struct {
 	Pairs         []PairSpec          `json:"pairs"`
 	EmissionLoops []LoopSpec          `json:"emission_loops"`
 	Precede       []PrecedeSpec       `json:"precede"`
+	ConsumeReset  []ConsumeResetSpec  `json:"consume_reset"`
 	Termination   TermSpec            `json:"termination"`
 	FuncProps     map[string][]string `json:"func_props"` // function key -> properties that depend on its termination
 	// E5
